@@ -292,7 +292,7 @@ def validate_section(ctx, section):
     rng = ctx.rng
     svc, mf = _make_service(True, "negative")
     worst = 0.0
-    for _ in range(60 if ctx.thorough() else 20):
+    for _ in range(600 if ctx.thorough() else 20):
         nT = 7
         k = rng.randrange(nT)
         tt = np.linspace(0, 3.0, nT) * rng.choice([1, -1])
@@ -329,7 +329,9 @@ def _orbit(kind):
     if kind == "halo-L1":
         orb = sysm.get_libration_point(1).create_orbit("halo", amplitude_z=0.2, zenith="southern")
     elif kind == "lyapunov-L2":
-        orb = sysm.get_libration_point(2).create_orbit("lyapunov", amplitude_x=0.02)
+        # (amplitude 0.02 and larger: the library's corrector loses the y=0 event from its own initial guess and raises -- on the pinned
+        # commit too; not this property's concern)
+        orb = sysm.get_libration_point(2).create_orbit("lyapunov", amplitude_x=0.01)
     else:
         raise ValueError(kind)
     orb.correct()
